@@ -79,6 +79,19 @@ broken translator obligation):
                in definition order (a canonical representation of the set); `Rec(a, b, c)` for the records in
                VALUE_RECORDS (`RoutingTableEntry(routes, key, mask)`) is the tuple of its arguments; `module.NAME`
                string constants (assigned once) may be `struct` formats.
+  dicts      : parameter / result type "dict": a dict whose keys and values are ints (keys stand for hashable objects),
+               as the association list of its items in insertion order, keys unique (a hypothesis of the theorems).
+               `d.get(k, default)`, `d.copy()`, `iteritems(d)` / `d.items()` / `itervalues(d)` / `d.values()` /
+               `d.keys()` as iterables of comprehensions, `{k: e for k, v in iteritems(d)}` (the key must be the
+               iterated key: order and uniqueness are kept), `any(c for v in ...)` / `all(...)`, `d[k] += e` /
+               `d[k] -= e` (KeyError when absent).  "rec:a,b.c": a record parameter with (dotted) int attributes.
+  floats     : parameter / result type "float"; `2.0 ** n`, `a * b` with a float operand (an int operand goes through
+               `float(k)`), `float(x)`, `int(x)` of a float.  They become calls of the fields of a parameter
+               `F : PyFloatOps φ` of the generated definition (`pow2`, `mul`, `ofInt`, `toInt`; the last three and
+               `pow2` may raise OverflowError): the float SEMANTICS is not the translator's, the companion module
+               instantiates it with the IEEE-754 model of Model/C16.
+  currying   : a ptypes entry "->g" after the outer parameter types: `def f(a): ...; def g(x): ...; return g` is
+               translated as the function of both parameter lists (the closure applied).
   events     : return type `ev:<t>`: calls of the methods in EVENT_CALLS (`warnings.warn`, `self._parent._perform_read`,
                `self._parent._perform_write`) are recorded, in order, in a list of `PyEvent` (name, integer arguments,
                bytes argument; the arguments of `warn` - a message - are not modelled) that is the LAST component of
@@ -230,6 +243,22 @@ FUNCS = [
      ["obj:_start_address,_end_address,_offset", "int"], "ev:bytes"),
     ("rig/machine_control/machine_controller.py", "SlicedMemoryIO.write",
      ["obj:_start_address,_end_address,_offset", "bytes"], "ev:int"),
+    # ---- fourth round ------------------------------------------------------------------------------------
+    ("rig/place_and_route/place/utils.py", "add_resources", ["dict", "dict"], "dict"),
+    ("rig/place_and_route/place/utils.py", "subtract_resources", ["dict", "dict"], "dict"),
+    ("rig/place_and_route/place/utils.py", "overallocated", ["dict"], "bool"),
+    ("rig/place_and_route/place/utils.py", "resources_after_reservation",
+     ["dict", "rec:resource,reservation.start,reservation.stop"], "exc:dict"),
+    ("rig/place_and_route/machine.py", "Machine.__contains__@chip",
+     ["obj:width,height,dead_chips:s2,dead_links:s3", "tup2"], "bool"),
+    ("rig/place_and_route/machine.py", "Machine.__contains__@link",
+     ["obj:width,height,dead_chips:s2,dead_links:s3", "tup3"], "bool"),
+    ("rig/bitfield.py", "BitField._assign_field",
+     ["rec:length", "local:field=obj:length:o,start_at:o,max_value", "int", "ignored", "ignored"], "exc:int"),
+    ("rig/type_casts.py", "NumpyFloatToFixConverter.__init__",
+     ["obj:max_value,min_value,n_frac;skip:bytes_per_element,dtype", "bool", "int", "int"], "exc:none"),
+    ("rig/type_casts.py", "float_to_fp", ["bool", "int", "int", "->bitsk", "float"], "exc:int"),
+    ("rig/type_casts.py", "fp_to_float", ["int", "->kbits", "int"], "exc:float"),
     ("rig/machine_control/regions.py", "RegionCoreTree.__init__",
      ["obj:base_x,base_y,scale,shift,level;skip:locally_selected,subregions", "int", "int", "int"], "none"),
 ]
@@ -268,7 +297,8 @@ CONSTRUCTORS = {"SlicedMemoryIO": (1, 2)}
 
 BASE_TY = {"bytes": "List Int", "int": "Int", "tup2": "Int × Int", "tup3": "Int × Int × Int", "slice": "Int × Int", "bool": "Bool",
            "optnn": "Option (Nat × Nat)", "none": "Unit", "optint": "Option Int",
-           "oslice": "Option Int × Option Int × Option Int", "list:int": "List Int", "list:tup2": "List (Int × Int)"}
+           "oslice": "Option Int × Option Int × Option Int", "list:int": "List Int", "list:tup2": "List (Int × Int)",
+           "dict": "List (Int × Int)", "float": "φ"}
 
 PRELUDE = '''/-! ### run-time support of the generated definitions (fixed text) -/
 
@@ -373,6 +403,28 @@ def pyStructUnpackFrom (big : Bool) (fs : List PyFmt) (buf : List Int) (off : In
 def pyStructUnpack (big : Bool) (fs : List PyFmt) (buf : List Int) : Except String (List Int) :=
   if buf.length = pyStructSize fs then Except.ok (pyStructValues big fs buf) else Except.error "struct.error"
 
+/-- `d[k] = f(d[k])` on a dict given as an association list (unique keys): `KeyError` when `k` is absent -/
+def pyDictUpd : List (Int × Int) → Int → (Int → Int) → Except String (List (Int × Int))
+  | [], _, _ => Except.error "KeyError"
+  | (k', v) :: t, k, f =>
+    if k' = k then Except.ok ((k', f v) :: t) else (pyDictUpd t k f).map (fun r => (k', v) :: r)
+
+/-- the operations on Python floats used by translated code.  Generated definitions that compute with floats are
+parametric in their semantics `F`; the companion modules instantiate it with the IEEE-754 double model of
+Model/C16.lean (whose facts are that model's trusted base, not the translator's) -/
+structure PyFloatOps (φ : Type) where
+  /-- `2.0 ** n` for an int `n` (OverflowError) -/
+  pow2 : Int → Except String φ
+  /-- `float(k)` for an int `k` (OverflowError: int too large to convert to float) -/
+  ofInt : Int → Except String φ
+  /-- `a * b` -/
+  mul : φ → φ → φ
+  /-- `int(x)`: truncation toward zero (OverflowError for an infinity) -/
+  toInt : φ → Except String Int
+  /-- `int(math.log(k, 2))` for an int `k` (ValueError: math domain error for k <= 0): a floating-point logarithm,
+  NOT always the exact integer logarithm -/
+  ilog2 : Int → Except String Int
+
 /-- Python `int(math.sqrt(n))` (integer square root, exact below 2^52; `ValueError: math domain error` for n < 0) -/
 def pyIsqrt (n : Int) : Except String Int :=
   if n < 0 then Except.error "ValueError" else Except.ok ((Nat.sqrt n.toNat : Nat) : Int)
@@ -390,8 +442,10 @@ def ident(name):
 
 
 def lean_name(qual):
-    """`_get_generality` -> get_generality, `Routes.is_link` -> Routes_is_link, `C.__len__` -> C_len"""
-    return "_".join(part.strip("_") for part in qual.split("."))
+    """`_get_generality` -> get_generality, `Routes.is_link` -> Routes_is_link, `C.__len__` -> C_len,
+    `C.__contains__@chip` -> C_contains_chip (the same source function translated for another argument type)"""
+    qual, _, alias = qual.partition("@")
+    return "_".join([part.strip("_") for part in qual.split(".")] + ([alias] if alias else []))
 
 
 def lean_ty(t):
@@ -408,6 +462,8 @@ def lean_ty(t):
         return "List (" + prod(calls_types(t)) + ")"
     if t.startswith("list:rec:"):
         return "List (" + " × ".join(["Int"] * len(t[9:].split(","))) + ")"
+    if t.startswith("rec:"):
+        return " × ".join(["Int"] * len(t[4:].split(",")))
     if t.startswith("opt:"):
         return "Option " + paren(lean_ty(t[4:]))
     if t.startswith("raw:"):
@@ -511,6 +567,8 @@ class Tr(object):
         self.uses_fuel = False
         self.fn = None
         self.nloops = 0
+        self.uses_float = False       # the definition takes the float semantics `F : PyFloatOps φ` as a parameter
+        self.dicts = set()            # names holding a dict of ints (association list, unique keys, insertion order)
         self.optslices = set()        # local variables declared `optslice`
         self.local_obj = False        # the object is created by the function itself (`x = cls()`)
         self.objname = "self"         # name of the parameter declared "obj:..."
@@ -657,6 +715,8 @@ class Tr(object):
             return ident(n.id), ast.dump(n), ident(n.id) + "_v"
         if isinstance(n, ast.Name) and n.id in self.optslices and self.lty.get(ident(n.id)) == "Option (Int × Int)":
             return ident(n.id), ast.dump(n), ident(n.id) + "_v"
+        if isinstance(n, ast.Name) and self.lty.get(ident(n.id)) == "Option Int" and n.id not in self.types:
+            return ident(n.id), ast.dump(ast.Name(id=n.id, ctx=ast.Load())), ident(n.id) + "_v"   # a local that holds int or None
         if isinstance(n, ast.Attribute) and isinstance(n.value, ast.Name) and self.types.get(n.value.id) == "oslice" \
                 and n.attr in ("start", "stop", "step"):
             i = ("start", "stop", "step").index(n.attr)
@@ -674,11 +734,26 @@ class Tr(object):
         if isinstance(n, ast.Name):
             if n.id in self.optslices and ast.dump(n) in self.narrow:
                 return "Int × Int"
+            if self.lty.get(ident(n.id)) == "Option Int" and n.id not in self.types \
+                    and ast.dump(ast.Name(id=n.id, ctx=ast.Load())) in self.narrow:
+                return "Int"
             return self.lty.get(ident(n.id), "Int")
         if isinstance(n, ast.Constant) and isinstance(n.value, bool):
             return "Bool"
+        if isinstance(n, ast.Constant) and isinstance(n.value, float):
+            return "φ"
+        if isinstance(n, ast.BinOp) and isinstance(n.op, (ast.Pow, ast.Mult)) and (
+                self.tyof(n.left) == "φ" or self.tyof(n.right) == "φ"):
+            return "φ"
+        if isinstance(n, ast.Call) and isinstance(n.func, ast.Name) and n.func.id == "float" and "float" not in self.lty:
+            return "φ"
         if isinstance(n, ast.Constant) and isinstance(n.value, bytes):
             return "List Int"
+        if isinstance(n, ast.DictComp) or (isinstance(n, ast.Call) and isinstance(n.func, ast.Attribute)
+                                           and n.func.attr == "copy" and self.dict_name(n.func.value)):
+            return "List (Int × Int)"
+        if isinstance(n, ast.Call) and isinstance(n.func, ast.Name) and n.func.id in ("any", "all"):
+            return "Bool"
         if isinstance(n, ast.SetComp):
             return "List Int"
         if isinstance(n, ast.Call) and self.record_value(n) is not None:
@@ -849,7 +924,86 @@ class Tr(object):
             return n.args
         return None
 
+    def dict_name(self, n):
+        return isinstance(n, ast.Name) and ident(n.id) in self.dicts and self.lty.get(ident(n.id)) == "List (Int × Int)"
+
+    def dict_view(self, n):
+        """`iteritems(d)` / `d.items()` -> ("items", d); `itervalues(d)` / `d.values()` -> ("values", d);
+        `iterkeys(d)` / `d.keys()` / `d` -> ("keys", d); else None"""
+        if isinstance(n, ast.Call) and not n.keywords:
+            if isinstance(n.func, ast.Name) and n.func.id in ("iteritems", "itervalues", "iterkeys") and len(n.args) == 1 \
+                    and self.dict_name(n.args[0]) and n.func.id not in self.lty:
+                return n.func.id[4:], ident(n.args[0].id)
+            if isinstance(n.func, ast.Attribute) and n.func.attr in ("items", "values", "keys") and not n.args \
+                    and self.dict_name(n.func.value):
+                return n.func.attr, ident(n.func.value.id)
+        if self.dict_name(n):
+            return "keys", ident(n.id)
+        return None
+
+    def as_float(self, n):
+        """an operand of a float operation: a float as it is, an int through `float(k)` (OverflowError)"""
+        if self.tyof(n) == "φ":
+            return self.e(n)
+        if self.tyof(n) == "Int":
+            t = self.raising("(F.ofInt %s)" % self.e(n))
+            self.tmp_ty[t] = "φ"
+            return t
+        raise NotImplementedError("float operand of type " + self.tyof(n))
+
     def e(self, n):
+        # ---- Python floats: the operations of the `PyFloatOps` parameter `F` of the generated definition ----
+        if isinstance(n, ast.BinOp) and isinstance(n.op, ast.Pow) and isinstance(n.left, ast.Constant) \
+                and isinstance(n.left.value, float) and n.left.value == 2.0 and self.tyof(n.right) == "Int":
+            self.uses_float = True
+            t = self.raising("(F.pow2 %s)" % self.e(n.right))          # 2.0 ** n (OverflowError)
+            self.tmp_ty[t] = "φ"
+            return t
+        if isinstance(n, ast.BinOp) and isinstance(n.op, ast.Mult) and "φ" in (self.tyof(n.left), self.tyof(n.right)):
+            self.uses_float = True
+            a = self.as_float(n.left)
+            b = self.as_float(n.right)
+            return "(F.mul %s %s)" % (a, b)
+        if isinstance(n, ast.Call) and isinstance(n.func, ast.Name) and n.func.id == "float" and len(n.args) == 1 \
+                and not n.keywords and "float" not in self.lty:
+            self.uses_float = True
+            return self.as_float(n.args[0])
+        if (isinstance(n, ast.Call) and isinstance(n.func, ast.Name) and n.func.id == "int" and len(n.args) == 1
+                and not n.keywords and isinstance(n.args[0], ast.Call) and isinstance(n.args[0].func, ast.Name)
+                and n.args[0].func.id == "log" and len(n.args[0].args) == 2 and not n.args[0].keywords
+                and isinstance(n.args[0].args[1], ast.Constant) and n.args[0].args[1].value == 2
+                and self.tyof(n.args[0].args[0]) == "Int" and "log" not in self.lty and self.imports_log):
+            self.uses_float = True
+            return self.raising("(F.ilog2 %s)" % self.e(n.args[0].args[0]))   # int(math.log(k, 2)): float logarithm
+        if isinstance(n, ast.Call) and isinstance(n.func, ast.Name) and n.func.id == "int" and len(n.args) == 1 \
+                and not n.keywords and self.tyof(n.args[0]) == "φ":
+            self.uses_float = True
+            return self.raising("(F.toInt %s)" % self.e(n.args[0]))     # int(x): truncation, OverflowError for inf
+        # ---- dicts of ints (association lists with unique keys, in insertion order) ----
+        if isinstance(n, ast.Call) and isinstance(n.func, ast.Attribute) and n.func.attr == "get" and len(n.args) == 2 \
+                and not n.keywords and self.dict_name(n.func.value):
+            return "((%s.lookup %s).getD %s)" % (ident(n.func.value.id), self.e(n.args[0]), self.e(n.args[1]))
+        if isinstance(n, ast.Call) and isinstance(n.func, ast.Attribute) and n.func.attr == "copy" and not n.args \
+                and not n.keywords and self.dict_name(n.func.value):
+            return ident(n.func.value.id)            # values are immutable ints: a copy is the same association list
+        if isinstance(n, ast.DictComp) and len(n.generators) == 1 and not n.generators[0].ifs:
+            g = n.generators[0]
+            dv = self.dict_view(g.iter)
+            if dv is None or dv[0] != "items" or not (isinstance(g.target, ast.Tuple) and len(g.target.elts) == 2
+                                                        and all(isinstance(x, ast.Name) for x in g.target.elts)):
+                raise NotImplementedError("dict comprehension over " + ast.dump(g.iter)[:60])
+            kn, vn = [ident(x.id) for x in g.target.elts]
+            if not (isinstance(n.key, ast.Name) and ident(n.key.id) == kn):
+                raise NotImplementedError("dict comprehension whose key is not the iterated key (uniqueness / order)")
+            saved = dict(self.lty)
+            self.lty[kn] = self.lty[vn] = "Int"
+            body = self.e(n.value)
+            self.lty = saved
+            return "(%s.map (fun (kv_ : Int × Int) => let %s : Int := kv_.1; let %s : Int := kv_.2; (%s, %s)))" % (
+                dv[1], kn, vn, kn, body)
+        if isinstance(n, ast.Call) and isinstance(n.func, ast.Name) and n.func.id in ("any", "all") and len(n.args) == 1 \
+                and isinstance(n.args[0], ast.GeneratorExp) and n.func.id not in self.lty:
+            return "(decide %s)" % self.p(n)
         if isinstance(n, ast.SetComp) and len(n.generators) == 1 and len(n.generators[0].ifs) == 1 \
                 and isinstance(n.generators[0].target, ast.Name) and isinstance(n.elt, ast.Name) \
                 and n.elt.id == n.generators[0].target.id and self.enum_values(n.generators[0].iter) is not None:
@@ -935,6 +1089,11 @@ class Tr(object):
                 raise NotImplementedError("name " + n.id)
             if self.types.get(n.id) == "obj":
                 raise NotImplementedError("the object `%s` itself used as a value" % n.id)
+            if self.lty.get(ident(n.id)) == "Option Int" and n.id not in self.types:
+                key = ast.dump(ast.Name(id=n.id, ctx=ast.Load()))
+                if key in self.narrow:
+                    return self.narrow[key]
+                raise NotImplementedError("optional `%s` used as a value without an `is None` test" % n.id)
             if n.id in self.optslices and self.lty.get(ident(n.id)) == "Option (Int × Int)":
                 if ast.dump(n) in self.narrow:
                     return self.narrow[ast.dump(n)]
@@ -1013,6 +1172,14 @@ class Tr(object):
                 return n.value.id + ".1"
             if n.attr == "stop":
                 return n.value.id + ".2"
+        if isinstance(n, ast.Attribute) and isinstance(n.value, ast.Attribute) and isinstance(n.value.value, ast.Name) \
+                and ident(n.value.value.id) in self.recs and ident(n.value.value.id) in self.lty:
+            # rec.a.b for a record declared with the dotted field `a.b`
+            fields = self.recs[ident(n.value.value.id)]
+            dotted = n.value.attr + "." + n.attr
+            if dotted not in fields:
+                raise NotImplementedError("attribute %s.%s is not declared" % (n.value.value.id, dotted))
+            return proj(ident(n.value.value.id), fields.index(dotted), len(fields))
         if isinstance(n, ast.Attribute) and isinstance(n.value, ast.Name) and ident(n.value.id) in self.recs \
                 and ident(n.value.id) in self.lty:
             fields = self.recs[ident(n.value.id)]
@@ -1147,7 +1314,28 @@ class Tr(object):
         """a Python expression used as a condition -> Lean Prop"""
         if isinstance(n, ast.Compare) and len(n.ops) == 1 and isinstance(n.ops[0], (ast.In, ast.NotIn)):
             # `x in Enum` / `x not in Enum` for an IntEnum class: value membership (Python >= 3.12)
+            c = n.comparators[0]
+            neg = isinstance(n.ops[0], ast.NotIn)
+            sa = self.self_attr(c) if isinstance(c, ast.Attribute) else None
+            if sa is not None and sa[0] == "state" and self.lty.get(sa[1], "").startswith("List (") \
+                    and self.lty[sa[1]][5:].strip("()") == self.tyof(n.left):
+                # t in self.<set of tuples> (the set as a list; only membership is used)
+                m = "(%s.contains %s = true)" % (sa[1], self.e(n.left))
+                return "(¬ %s)" % m if neg else m
+            if isinstance(c, ast.Name) and c.id == self.objname and self.types.get(c.id) == "obj":
+                # t in self: the translated `__contains__` of the class for a tuple of that arity
+                for cname in self.mro:
+                    for q, d in self.done.items():
+                        if q.startswith("%s.__contains__" % cname) and d[1][:1] == [self.obj_spec] and len(d[1]) == 2 \
+                                and lean_ty(d[1][1]) == self.tyof(n.left) and d[0] == "bool" and not d[2]:
+                            m = "((%s %s %s).1 = true)" % (lean_name(q), " ".join(
+                                self.objname + "_" + a for a in self.attrs), self.e(n.left))
+                            return "(¬ %s)" % m if neg else m
+                raise NotImplementedError("`in self` without a translated __contains__")
             vals = self.enum_values(n.comparators[0])
+            if vals is None and isinstance(c, (ast.List, ast.Tuple)) and c.elts and all(
+                    self.tyof(x) == "Int" for x in c.elts) and self.tyof(n.left) == "Int":
+                vals = [self.e(x) for x in c.elts]          # `x in [a, b, c]` over ints
             if vals is None:
                 raise NotImplementedError("`in` " + ast.dump(n.comparators[0])[:60])
             m = "(([%s] : List Int).contains %s = true)" % (", ".join(str(v) for v in vals), self.e(n.left))
@@ -1184,6 +1372,29 @@ class Tr(object):
                 and isinstance(n.args[0], ast.Name) and self.types.get(n.args[0].id) == "oslice"
                 and isinstance(n.args[1], ast.Name) and n.args[1].id == "slice"):
             return "True"
+        if isinstance(n, ast.Call) and isinstance(n.func, ast.Name) and n.func.id in ("any", "all") and len(n.args) == 1 \
+                and isinstance(n.args[0], ast.GeneratorExp) and n.func.id not in self.lty:
+            g = n.args[0]
+            if len(g.generators) != 1 or g.generators[0].ifs or not isinstance(g.generators[0].target, ast.Name):
+                raise NotImplementedError("any / all over " + ast.dump(g)[:60])
+            dv = self.dict_view(g.generators[0].iter)
+            if dv is not None:
+                lst = {"items": None, "values": "(%s.map Prod.snd)" % dv[1], "keys": "(%s.map Prod.fst)" % dv[1]}[dv[0]]
+                ety = "Int"
+                if lst is None:
+                    raise NotImplementedError("any / all over items")
+            else:
+                lst, ety = self.iter_expr(g.generators[0].iter)
+            var = ident(g.generators[0].target.id)
+            saved = dict(self.lty)
+            self.lty[var] = ety
+            self.cond_depth += 1
+            try:
+                c = self.p(g.elt)
+            finally:
+                self.cond_depth -= 1
+                self.lty = saved
+            return "(%s.%s (fun (%s : %s) => decide %s) = true)" % (lst, n.func.id, var, ety, c)
         if isinstance(n, ast.BoolOp):
             # `a and b` / `a or b`: later operands are evaluated conditionally (no raising construct allowed there)
             j = " ∧ " if isinstance(n.op, ast.And) else " ∨ "
@@ -1562,9 +1773,9 @@ class Tr(object):
         if (self.local_obj and isinstance(s, ast.Assign) and len(s.targets) == 1 and isinstance(s.targets[0], ast.Name)
                 and s.targets[0].id == self.objname):
             c = s.value
-            if not (isinstance(c, ast.Call) and isinstance(c.func, ast.Name) and not c.args and not c.keywords
-                    and ((c.func.id == "cls" and self.is_classmethod) or c.func.id in self.classes)):
-                raise NotImplementedError("the local object must be created by `cls()` / `Class()`")
+            if not isinstance(c, ast.Call):
+                raise NotImplementedError("the local object must be the result of a call")
+            # `cls()` / `Class()` / any other call whose result is not modelled (`self.fields.get_field(...)`): 
             # the fresh object is its attribute parameters (the values the constructor leaves)
             return self.block(rest, ind, tail)
         pc = self.proc_call(s)
@@ -1657,6 +1868,16 @@ class Tr(object):
             self.lty[nm] = "Option (Int × Int)"
             text = "%slet %s : Option (Int × Int) := %s\n" % (pad, nm, val)
             return self.seq(pad, text, rest, ind, tail)
+        if (isinstance(s, ast.Assign) and len(s.targets) == 1 and isinstance(s.targets[0], ast.Name)
+                and isinstance(s.value, ast.Attribute) and self.opt_expr(s.value) is not None
+                and self.opt_expr(s.value)[1] not in self.narrow and isinstance(s.value.value, ast.Name)
+                and s.value.value.id == self.objname):
+            # x = obj.attr for an attribute that may be None: x is an optional local
+            nm = ident(s.targets[0].id)
+            self.narrow.pop(ast.dump(ast.Name(id=s.targets[0].id, ctx=ast.Load())), None)
+            self.lty[nm] = "Option Int"
+            text = "%slet %s : Option Int := %s\n" % (pad, nm, self.opt_expr(s.value)[0])
+            return self.seq(pad, text, rest, ind, tail)
         if isinstance(s, ast.Assign) and len(s.targets) == 1:
             t = s.targets[0]
             names = self.target_names(t)
@@ -1664,6 +1885,10 @@ class Tr(object):
             vty = self.tyof(s.value)
             ty = " : " + vty if len(names) == 1 and not isinstance(s.value, ast.Tuple) else ""
             val = self.call_arg(s.value, None)
+            if len(names) == 1 and isinstance(t, ast.Name):
+                self.narrow.pop(ast.dump(ast.Name(id=t.id, ctx=ast.Load())), None)
+            if len(names) == 1 and isinstance(t, ast.Attribute) and self.lty.get(names[0]) == "Option Int" and vty == "Int":
+                val, vty, ty = "(some %s)" % val, "Option Int", " : Option Int"     # an int stored in an int-or-None attribute
             if len(names) == 1:
                 self.bind(names, [vty])
             else:
@@ -1673,7 +1898,18 @@ class Tr(object):
                 if isinstance(s.value, ast.Tuple):
                     cs = [self.tyof(x) for x in s.value.elts]
                 self.bind(names, cs)
+            if len(names) == 1 and vty == "List (Int × Int)" and (isinstance(s.value, ast.DictComp) or (
+                    isinstance(s.value, ast.Call) and isinstance(s.value.func, ast.Attribute) and s.value.func.attr == "copy")):
+                self.dicts.add(names[0])
             text = "%slet %s%s := %s\n" % (pad, pat, ty, val)
+            return self.seq(pad, text, rest, ind, tail)
+        if isinstance(s, ast.AugAssign) and isinstance(s.target, ast.Subscript) and self.dict_name(s.target.value) \
+                and isinstance(s.op, (ast.Add, ast.Sub)):
+            # d[k] += e / d[k] -= e: KeyError when k is absent (the old value is read first)
+            d = ident(s.target.value.id)
+            t = self.raising("(pyDictUpd %s %s (fun (v_ : Int) => v_ %s %s))" % (
+                d, self.e(s.target.slice), "+" if isinstance(s.op, ast.Add) else "-", self.e(s.value)))
+            text = "%slet %s : List (Int × Int) := %s\n" % (pad, d, t)
             return self.seq(pad, text, rest, ind, tail)
         if isinstance(s, ast.AugAssign):
             names = self.target_names(s.target)
@@ -1703,6 +1939,14 @@ class Tr(object):
                 and n.args[0].id not in self.assigned_anywhere_py
                 and isinstance(n.args[1], ast.Name) and n.args[1].id in ("str", "Iterable", "bytes", "list", "tuple")):
             return False
+        if (isinstance(n, ast.Compare) and len(n.ops) == 1 and isinstance(n.ops[0], ast.Eq)
+                and isinstance(n.left, ast.Call) and isinstance(n.left.func, ast.Name) and n.left.func.id == "len"
+                and len(n.left.args) == 1 and isinstance(n.left.args[0], ast.Name)
+                and self.types.get(n.left.args[0].id) in ("tup2", "tup3")
+                and n.left.args[0].id not in self.assigned_anywhere_py
+                and isinstance(n.comparators[0], ast.Constant) and isinstance(n.comparators[0].value, int)):
+            # len(t) of a parameter declared as a tuple of known arity
+            return {"tup2": 2, "tup3": 3}[self.types[n.left.args[0].id]] == n.comparators[0].value
         if isinstance(n, ast.UnaryOp) and isinstance(n.op, ast.Not):
             v = self.static_test(n.operand)
             return None if v is None else not v
@@ -1721,7 +1965,7 @@ class Tr(object):
             saved = (dict(self.lty), dict(self.narrow), list(self.pending), len(self.aux), self.ntmp, list(self.oracles))
             return self.if_stmt_(s, rest, ind, tail, False)
         except NotImplementedError as e:
-            if "different types in the branches" not in str(e) or rest or tail is not None or self.loops:
+            if "different types in the branches" not in str(e) or self.loops:
                 raise
             self.lty, self.narrow, self.pending = saved[0], saved[1], saved[2]
             del self.aux[saved[3]:]
@@ -1741,6 +1985,9 @@ class Tr(object):
             self.lty, self.narrow = dict(saved_l), dict(saved_n)
             if narrowed:
                 self.narrow[nt[1]] = self.opt_expr(s.test.left)[2]
+                # the narrowed value is a variable of the scope (loop bodies may capture it)
+                self.lty[self.opt_expr(s.test.left)[2]] = "Int × Int" if (
+                    isinstance(s.test.left, ast.Name) and s.test.left.id in self.optslices) else "Int"
             return self.block(stmts, i, t)
 
         def head(a, b, pad2):
@@ -1887,8 +2134,6 @@ class Tr(object):
         """`for` loop: the loop body becomes a definition `<f>_loop<k> <captured variables> st_ it_` of its own
         (so that companion proofs can talk about it), the loop is `List.foldl` of it"""
         pad = "  " * ind
-        if self.narrow:
-            raise NotImplementedError("loop inside a branch that narrows an optional")
         name = self.new_loop(s)
         lst, ety = self.iter_expr(s.iter)
         my_pending, self.pending = self.pending, []
@@ -1960,8 +2205,6 @@ class Tr(object):
         """`while` loop: condition and body become definitions `<f>_loop<k>_cond`, `<f>_loop<k>`; the loop is
         `pyWhile cond body fuel init`"""
         pad = "  " * ind
-        if self.narrow:
-            raise NotImplementedError("loop inside a branch that narrows an optional")
         name = self.new_loop(s)
         has_brk, has_ret, comps, tys = self.state_setup(s)
         if not comps:
@@ -2100,6 +2343,7 @@ def module_str_consts(repo, rel, tree):
 
 
 def find_def(tree, rel, qual):
+    qual = qual.partition("@")[0]
     scope, cls = tree, None
     parts = qual.split(".")
     if len(parts) > 3:
@@ -2134,7 +2378,28 @@ def translate(repo, rel, fname, ptypes, ret, done=None):
         ret = "exc:int"
     tree = ast.parse(open(os.path.join(repo, rel)).read())
     fn, cls = find_def(tree, rel, fname)
-    nested_def = fname.count(".") == 2
+    if any(t.startswith("->") for t in ptypes):
+        # `def f(a): ...; def g(x): ...; return g`: translated as the function of both parameter lists
+        inner_name = [t for t in ptypes if t.startswith("->")][0][2:]
+        ptypes = [t for t in ptypes if not t.startswith("->")]
+        body = [x for x in fn.body if not (isinstance(x, ast.Expr) and isinstance(x.value, ast.Constant))]
+        if (len(body) < 2 or not isinstance(body[-2], ast.FunctionDef) or body[-2].name != inner_name
+                or not (isinstance(body[-1], ast.Return) and isinstance(body[-1].value, ast.Name)
+                        and body[-1].value.id == inner_name)):
+            raise NotImplementedError("%s does not end in `def %s(..): ...; return %s`" % (fname, inner_name, inner_name))
+        inner = body[-2]
+        ia = inner.args
+        if inner.decorator_list or ia.vararg or ia.kwarg or ia.kwonlyargs or ia.defaults:
+            raise NotImplementedError("%s: inner function %s" % (fname, inner_name))
+        outer_names = set(x.arg for x in fn.args.args) | set(
+            t.id for m in body[:-2] for w in ast.walk(m) if isinstance(w, (ast.Assign, ast.AugAssign))
+            for t in (w.targets if isinstance(w, ast.Assign) else [w.target]) if isinstance(t, ast.Name))
+        if any(x.arg in outer_names for x in ia.args):
+            raise NotImplementedError("%s: a parameter of %s hides a variable of the outer function" % (fname, inner_name))
+        fn = ast.FunctionDef(name=fn.name, args=ast.arguments(posonlyargs=[], args=fn.args.args + ia.args, vararg=fn.args.vararg,
+                             kwonlyargs=fn.args.kwonlyargs, kw_defaults=[], kwarg=fn.args.kwarg, defaults=[]),
+                             body=body[:-2] + inner.body, decorator_list=fn.decorator_list, lineno=fn.lineno)
+    nested_def = fname.partition("@")[0].count(".") == 2
     if nested_def:
         cls = None
     fn.decorator_list = [d for d in fn.decorator_list if not (
@@ -2179,6 +2444,7 @@ def translate(repo, rel, fname, ptypes, ret, done=None):
         raise NotImplementedError("%s: parameters %r" % (fname, params))
     local_enums = int_enums(tree)
     attrs, aty, types, sig, recs, lty, skipped, objname = [], [], {}, [], {}, {}, [], "self"
+    dict_params = []
     for p, t in zip(params, ptypes):
         if t.startswith("obj:"):
             if attrs or (p != "self" and cls is not None and not nested_def and not local_obj):
@@ -2188,7 +2454,8 @@ def translate(repo, rel, fname, ptypes, ret, done=None):
             skipped = [x for x in skip.split(",") if x]
             spec = [x for x in main.split(",") if x]
             attrs = [x.split(":")[0] for x in spec]
-            aty = [{"b": "Bool", "y": "List Int", "o": "Option Int"}.get(x.split(":")[1], None) if ":" in x else "Int"
+            aty = [{"b": "Bool", "y": "List Int", "o": "Option Int", "s2": "List (Int × Int)",
+                    "s3": "List (Int × Int × Int)"}.get(x.split(":")[1], None) if ":" in x else "Int"
                    for x in spec]
             if None in aty:
                 raise NotImplementedError("%s: attribute type in %s" % (fname, t))
@@ -2199,13 +2466,17 @@ def translate(repo, rel, fname, ptypes, ret, done=None):
         elif t == "ignored":
             types[p] = "ignored"       # a parameter the body must not read (e.g. a parent object that is only stored)
         else:
-            if p == "self" and not (t == "int" and cls in local_enums):
+            if p == "self" and not (t == "int" and cls in local_enums) and not t.startswith("rec:"):
                 raise NotImplementedError("%s: self : %s outside an IntEnum class" % (fname, t))
             types[p] = t
             sig.append("(%s : %s)" % (ident(p), lean_ty(t)))
             lty[ident(p)] = lean_ty(t)
             if t.startswith("list:rec:"):
                 types[p] = "list"
+            if t.startswith("rec:"):
+                recs[ident(p)] = t[4:].split(",")
+            if t == "dict":
+                dict_params.append(ident(p))
     tr = Tr(types, cls=cls, enums=visible_enums(repo, rel, tree), done=done, attrs=attrs, recs=recs)
     tr.local_enums = local_enums
     tr.module_enums = module_enums(repo, rel, tree)
@@ -2213,6 +2484,8 @@ def translate(repo, rel, fname, ptypes, ret, done=None):
     tr.obj_spec = next((t for t in ptypes if t.startswith("obj:")), None)
     tr.attr_specs = [x for x in (tr.obj_spec or "obj:")[4:].split(";")[0].split(",") if x]
     tr.objname = objname
+    tr.recs.update(recs)
+    tr.dicts = set(dict_params)
     tr.local_obj = bool(local_obj)
     tr.optslices = set(var_types)
     tr.mro = class_mro(tree, cls) if cls else [None]
@@ -2225,6 +2498,8 @@ def translate(repo, rel, fname, ptypes, ret, done=None):
     tr.lty["fuel"] = "Nat"            # the extra parameter of functions with `while` loops
     tr.is_classmethod = is_classmethod
     tr.classes = set(n.name for n in tree.body if isinstance(n, ast.ClassDef))
+    tr.imports_log = any(isinstance(n, ast.ImportFrom) and n.module == "math" and any(
+        al.name == "log" and al.asname is None for al in n.names) for n in tree.body)
     tr.imports_sqrt = any(isinstance(n, ast.ImportFrom) and n.module == "math" and any(
         al.name == "sqrt" and al.asname is None for al in n.names) for n in tree.body)
     tr.rec_elems = dict((ident(p), t[9:].split(",")) for p, t in zip(params, ptypes) if t.startswith("list:rec:"))
@@ -2305,6 +2580,8 @@ def translate(repo, rel, fname, ptypes, ret, done=None):
     if events:
         body = "  let out_ : List PyEvent := []\n" + body
     sig += ["(%s : %s)" % o for o in tr.oracles]
+    if tr.uses_float or "float" in ptypes:
+        sig = ["{φ : Type}", "(F : PyFloatOps φ)"] + sig
     if tr.uses_fuel:
         sig.append("(fuel : Nat)")
     assigns_state = any(tr_assigns_attr(n) for n in ast.walk(fn))
